@@ -5,7 +5,7 @@ import os
 import sys
 import tempfile
 
-from common import REPO, MachineryError, workdir
+from common import REPO, MachineryError, ImplMisbehaved, workdir
 
 os.environ.setdefault("SKETCHNU_VERIF", "1")
 if REPO not in sys.path:
@@ -39,16 +39,26 @@ CAP32 = 2**32 - 1
 BIGR = 1 << 20
 
 
+DB = 1 << 30
+
+
 def big(n):
-    """int -> BigNum limbs [hi, lo] (spec/BigNum.tla)."""
+    """int -> DigNum (spec/DigNum.tla): little-endian base-2^30 digits, normalised; 0 = []."""
     n = int(n)
-    if n < 0 or n >= (1 << 50):
-        raise MachineryError("value %d outside the BigNum range of the trace encoding" % n)
-    return [n >> 20, n & (BIGR - 1)]
+    if n < 0:
+        raise MachineryError("negative value %d in the trace encoding" % n)
+    out = []
+    while n:
+        out.append(n & (DB - 1))
+        n >>= 30
+    return out
 
 
 def unbig(p):
-    return (p[0] << 20) + p[1]
+    v = 0
+    for i, d in enumerate(p):
+        v += d << (30 * i)
+    return v
 
 
 def kb(key):
@@ -84,7 +94,7 @@ def cm_cols(cls_factory, key):
     for r in range(int(probe.depth)):
         nz = np.flatnonzero(probe.cms[r])
         if len(nz) != 1:
-            raise MachineryError("probe sketch row %d has %d non-zero cells" % (r, len(nz)))
+            raise ImplMisbehaved("one add to an empty probe sketch left %d non-zero cells in row %d" % (len(nz), r))
         cols.append(int(nz[0]) + 1)
     return cols
 
